@@ -21,6 +21,7 @@ def run(ctx):
             state["stats"][k] = state["stats"].get(k, 0) + v
         if not hok and not any("does not build" in c for c in ctx.corr_broken):
             ctx.corr_broken.append("harness TestVerifBgpElig failed: " + log[-1500:])
+        state["elig_ran"] = state.get("elig_ran", True) and hok
         return cases
 
     cases = harness(n, ctx.seed, "h")
@@ -45,6 +46,7 @@ def run(ctx):
                 state["stats"]["hist:" + r["k"]] = state["stats"].get("hist:" + r["k"], 0) + r["v"]
         if not hok and not any("does not build" in c for c in ctx.corr_broken):
             ctx.corr_broken.append("harness TestVerifSpk (history part of C10) failed: " + log[-1500:])
+        state["hist_ran"] = state.get("hist_ran", True) and hok
 
     hist(30 if ctx.tier == "quick" else 600, ctx.seed, "hist")
     mism = []
@@ -56,10 +58,16 @@ def run(ctx):
             ctx.corr_broken.append("model bgp_decide and bgpController.ShouldAnnounce disagree on layout %d (%s): %s" %
                                    (m, byid.get(m, {}).get("kind"), json.dumps(byid.get(m, {}).get("in"))[:600]))
     st = state["stats"]
-    if cases:
-        for k in ("announce", "reason:RNoLocal", "reason:RNoEndpoints", "reason:RExcluded", "reason:RNetUnavail",
-                  "reason:RNotOwner", "conflicting_conditions_for_one_address", "multi_homed_address", "f18_hits", "route_checks",
-                  "hist:elig_history_checks", "hist:elig_services_expected_over_bgp", "hist:ev_node_flag_change",
+    # degenerate-generator guard: counters computed from the INPUTS only (which conditions of the statement fail, shapes of
+    # the layouts, kinds of events) - never from what the code answered; a part that did not run is reported once above
+    # (build failure / harness failure), not as a degenerate generator
+    if cases and state.get("elig_ran"):
+        for k in ("statement-says-announce", "fails:no-local-endpoint", "fails:no-endpoint", "fails:excluded", "fails:network-unavailable",
+                  "fails:not-selected", "conflicting_conditions_for_one_address", "multi_homed_address", "inputs-of-the-duplicate-address-shape"):
+            if st.get(k, 0) == 0:
+                raise vlib.Broken("generator degenerate: counter %r is zero: %r" % (k, st))
+    if state.get("hist_ran"):
+        for k in ("hist:elig_services_expected_over_bgp", "hist:ev_node_flag_change",
                   "hist:stack_histories", "hist:stack_steps_with_same_named_services", "hist:stack_services_expected_over_bgp"):
             if st.get(k, 0) == 0:
                 raise vlib.Broken("generator degenerate: counter %r is zero: %r" % (k, st))
